@@ -1422,8 +1422,9 @@ func TestC16BigCopies(t *testing.T) {
 // bits, or a limit on what is worth copying, first matters - decoded by every function, newBuf=true included (the
 // decoder really duplicates the body). Sparse cases of the big-copies type: the input is address space, the process
 // holds one copy at a time (2 GiB resident for a body of 2^31 bytes). Same oracle as big_copies: error -> n == 0, success ->
-// the result compared in full with the input the moment the call returns. Quick: one body of 2^31 bytes; thorough:
-// 2^31-1, 2^31, 2^31+1 (over-long prefix, 3 bytes behind), 2^32+5.
+// the result compared in full with the input the moment the call returns. Thorough tier only (memory that a process
+// touches for the first time costs several seconds per GiB here): 2^31-1, 2^31, 2^31+1 (over-long prefix, 3 bytes
+// behind), 2^32+5; run on its own in the quick tier it does the body of 2^31 bytes.
 func TestC16HugeCopies(t *testing.T) {
 	st := vstat.For("C16")
 	cases := vstat.Pick(
@@ -1574,7 +1575,18 @@ func TestC15HugeBodies(t *testing.T) {
 			record15Z(c, info)
 		}
 	}
-	st.SetExhaustive("huge_bodies", map[string]any{"lengths": lens, "kinds": 2, "arena_bytes": maxLen + 32})
+	// thorough: the round trip with newBuf=true too, across MaxInt32 and 2^32 (the decoder duplicates the body: the process
+	// holds up to 4 GiB for a moment)
+	var copied []int
+	if vstat.Thorough() {
+		for _, c := range []Case15Z{{K: KBytes, L: 1<<31 - 1, Copy: true}, {K: KBytes, L: 1 << 31, Copy: true}, {K: KString, L: 1 << 31, Copy: true}, {K: KString, L: 1<<31 + 1, Copy: true}, {K: KBytes, L: 1<<32 + 1, Copy: true}} {
+			info, v := Run15Z(c)
+			st.Report(t, "TestC15HugeBodies", c, v)
+			record15Z(c, info)
+			copied = append(copied, c.L)
+		}
+	}
+	st.SetExhaustive("huge_bodies", map[string]any{"lengths": lens, "kinds": 2, "arena_bytes": maxLen + 32, "lengths_decoded_with_newBuf_true": copied})
 	st.SetExtra("huge_bodies_peak_resident_kB", peakRSSkB())
 }
 
@@ -1764,7 +1776,9 @@ func TestReplay(t *testing.T) {
 		if _, err := vstat.LoadReplay(p, &c); err != nil {
 			t.Fatalf("cannot load %s: %v", p, err)
 		}
-		c.Rounds = max(c.Rounds, 8) // the schedule is met by chance: more repetitions than the search spends per case
+		if !c.Sparse {
+			c.Rounds = max(c.Rounds, 8) // the schedule is met by chance: more repetitions than the search spends per case
+		}
 		info, v := Run16B(c)
 		vstat.For("C16").Report(t, "TestReplay", c, v)
 		record16B(c, info)
